@@ -166,10 +166,10 @@ class CSSImportRule(cssrule.CSSRule):
             def _ident(expected, seq, token, tokenizer=None):
                 # medialist ending with ; which is checked upon too
                 if expected.startswith('media'):
+                    # incl. found token
                     mediatokens = self._tokensupto2(
-                        tokenizer, importmediaqueryendonly=True
+                        tokenizer, token, importmediaqueryendonly=True
                     )
-                    mediatokens.insert(0, token)  # push found token
 
                     last = mediatokens.pop()  # retrieve ;
                     lastval, lasttyp = self._tokenvalue(last), self._type(last)
@@ -206,7 +206,10 @@ class CSSImportRule(cssrule.CSSRule):
             def _char(expected, seq, token, tokenizer=None):
                 # final ;
                 val = self._tokenvalue(token)
-                if expected.endswith(';') and ';' == val:
+                if expected.startswith('media') and '(' == val:
+                    # medialist starting with an expression
+                    return _ident(expected, seq, token, tokenizer)
+                elif expected.endswith(';') and ';' == val:
                     return 'EOF'
                 else:
                     new['wellformed'] = False
